@@ -2295,7 +2295,11 @@ class DiskObjectStore(PackBasedObjectStore):
             ):
                 pass
         except BaseException:
-            final_pack.close()
+            # The rollback must not depend on the pack closing cleanly: the
+            # failure being handled can still hold views of its mmap
+            # ("cannot close exported pointers exist").
+            with suppress(BufferError, OSError):
+                final_pack.close()
             with suppress(FileNotFoundError):
                 os.remove(target_pack_path)
             with suppress(FileNotFoundError):
